@@ -35,10 +35,15 @@ let query_of (v : value) : qrec =
 let err_of_code c = match c with
   | 1 | 4 -> Some ECancel | 2 | 5 -> Some EDeadline | 3 -> Some EOther | _ -> None
 
+(* 6-8: side effects of a call that succeeds *)
+let sev_of_code c = match c with
+  | 6 -> SFx (FxReq ECancel) | 7 -> SFx (FxReq EDeadline) | 8 -> SFx FxSrv
+  | _ -> (match err_of_code c with Some e -> SFail e | None -> SPass)
+
 let mk_q (var : variant) (max : int) (q : qrec) (higher : bool) (script : int list) (lossy : bool) (openerr : int) : qdesc =
   { q_var = var; q_kind = q.kind; q_higher = higher; q_object = q.obj; q_relation = q.rel; q_users = q.users;
     q_key = n_of_int q.key; q_markers = List.map n_of_int q.markers; q_max = nat_of_int max;
-    q_items = q.items; q_script = List.map err_of_code script; q_lossy = lossy; q_openerr = err_of_code openerr }
+    q_items = q.items; q_script = List.map sev_of_code script; q_lossy = lossy; q_openerr = err_of_code openerr }
 
 let ctx_of m = match m with 1 -> CCancelled | 2 -> CDeadline | _ -> CLive
 
